@@ -85,12 +85,23 @@ func t(v int) int {
 	fmt.Println("t", v)
 	return v
 }
+
+func showS05(v string) {
+	fmt.Printf("%q\n", v)
+}
+
+func callS05(f func() string) {
+	fmt.Printf("%q\n", f())
+}
 `
 
 // Case: one literal.
 type Case struct {
 	Form   string   `json:"form"`   // quoted | raw
 	Pieces []string `json:"pieces"` // piece ids
+	// Ctx: where the literal stands: "" right side of :=, "arg" call argument, "closure" result of a function
+	// literal called at once, "lambda" result of a lambda passed to a helper
+	Ctx string `json:"ctx,omitempty"`
 }
 
 type rendered struct {
@@ -156,11 +167,18 @@ func want(r rendered) string {
 
 func unitFor(k Case) progs.Unit {
 	r := render(k)
-	return progs.Unit{
-		Key: k.Form,
-		XGo: "v := " + r.lit + "\nfmt.Printf(\"%q\\n\", v)",
-		Go:  "v := " + r.goExpr + "\nfmt.Printf(\"%q\\n\", v)",
+	x, g := "v := "+r.lit+"\nfmt.Printf(\"%q\\n\", v)", "v := "+r.goExpr+"\nfmt.Printf(\"%q\\n\", v)"
+	switch k.Ctx {
+	case "arg":
+		x, g = "showS05("+r.lit+")", "showS05("+r.goExpr+")"
+	case "closure":
+		x = "v := func() string {\n\treturn " + r.lit + "\n}()\nfmt.Printf(\"%q\\n\", v)"
+		g = "v := func() string {\n\treturn " + r.goExpr + "\n}()\nfmt.Printf(\"%q\\n\", v)"
+	case "lambda":
+		x = "callS05 => " + r.lit
+		g = "callS05(func() string {\n\treturn " + r.goExpr + "\n})"
 	}
+	return progs.Unit{Key: k.Form, XGo: x, Go: g}
 }
 
 var opts = progs.Options{Prelude: prelude, Imports: []string{"errors", "strconv"}, PerProgram: 2000}
@@ -282,10 +300,17 @@ func enumerate(form string, maxLen int) []Case {
 	var rec func(cur []string, n int)
 	rec = func(cur []string, n int) {
 		if len(cur) == n {
-			k := Case{form, append([]string{}, cur...)}
+			k := Case{Form: form, Pieces: append([]string{}, cur...)}
 			if lit := render(k).lit; !seen[lit] {
 				seen[lit] = true
 				out = append(out, k)
+				if form == "quoted" && len(cur) >= 1 && len(cur) <= 2 { // the literal in other positions
+					for _, cx := range []string{"arg", "closure", "lambda"} {
+						kk := k
+						kk.Ctx = cx
+						out = append(out, kk)
+					}
+				}
 			}
 			return
 		}
@@ -380,7 +405,11 @@ func main() {
 	notRun := 0
 	for start := 0; start < len(cases); start += batch {
 		// no new batch after 7.5 min (a batch takes 15 s on an idle machine, ~2 min under 10x load)
-		if c.Expired() || c.Remaining() < 450*time.Second && start > 0 {
+		reserve := 450 * time.Second
+		if !c.Thorough() {
+			reserve = 90 * time.Second // quick has a 240 s deadline in all
+		}
+		if c.Expired() || c.Remaining() < reserve && start > 0 {
 			c.Cap(fmt.Sprintf("time budget: %d of %d literals evaluated (shortest first)", start, len(cases)))
 			break
 		}
